@@ -128,8 +128,8 @@ NZ = z3.Range("1", "9")
 #   fixed notation  ddd.ddd   (at least one digit on both sides)
 #   or  d[.ddd]e[+-]dd[d]     (exponent at least two digits)
 REPR_FLOAT = z3.Union(
-    z3.Concat(D1, z3.Re("."), D1),
-    z3.Concat(D, z3.Option(z3.Concat(z3.Re("."), D1)), z3.Re("e"), z3.Union(z3.Re("-"), z3.Re("+")), D, D, z3.Option(D)),
+    z3.Concat(z3.Union(z3.Re("0"), z3.Concat(NZ, z3.Star(D))), z3.Re("."), D1),
+    z3.Concat(NZ, z3.Option(z3.Concat(z3.Re("."), D1)), z3.Re("e"), z3.Union(z3.Re("-"), z3.Re("+")), z3.Union(z3.Concat(D, D), z3.Concat(NZ, D, D))),
 )
 # '%d' % x for x >= 0
 PCT_D = z3.Union(z3.Re("0"), z3.Concat(NZ, z3.Star(D)))
